@@ -31,7 +31,7 @@ ASSUMPTIONS = [
     "PyElastica's own save_state/load_state and PositionVerlet are third party (used as the documented body checkpoint)",
     "the scratch-poison differential is bitwise only inside one process (FFTW plans)",
 ]
-REQUIRE = {"restart_points": 12, "trajectory_steps_compared": 30, "poison_differential_steps": 10, "helper_directories": 6, "helper_clock_mismatch_of_one_small_step": 3, "scratch_arrays_poisoned": 50, "checkpoints_written_over_leftover_files": 12}
+REQUIRE = {"restart_points": 12, "trajectory_steps_compared": 30, "poison_differential_steps": 10, "helper_directories": 6, "helper_clock_mismatch_of_one_small_step": 3, "scratch_arrays_poisoned": 50, "checkpoints_written_over_leftover_files": 12, "scenarios_float32_fields_in_float64_io": 2}
 SHARD_TIMEOUT = {"quick": 1700, "thorough": 3400}
 
 SCEN = [
@@ -54,6 +54,8 @@ def shards(tier, seed):
             sc = dict(sc, shape=perms3[(i + seed) % len(perms3)])
         elif "shape" not in sc and (i + seed) % 2 == 1:
             sc = dict(sc, shape=(48, 36))
+        if (i + seed) % 2 == 1:
+            sc = dict(sc, default_io=True)
         if (i + seed) % 3 != 0:
             # the working directory already holds checkpoint files of an EARLIER run with the same indices (same dataset names, shapes and
             # dtypes, other values and times): the run's own saves must replace them entirely
@@ -117,8 +119,18 @@ def build(sc, dtype, t0=0.0):
         inter = sps.CosseratRodFlowInteraction(cosserat_rod=body, virtual_boundary_stiffness_coeff=-3e3, virtual_boundary_damping_coeff=-1e1, **common, **kw)
     sim.add_forcing_to(body).using(sps.FlowForces, inter)
     sim.finalize()
-    ios = {"flow": spu.EulerianFieldIO(position_field=flow.position_field, eulerian_fields_dict={"vorticity": flow.vorticity_field, "velocity": flow.velocity_field})}
-    fio = spu.IO(dim=d, real_dtype=real_t)
+    if sc.get("default_io"):
+        # checkpoints written through generic IO objects of DEFAULT precision (float64), whatever the simulator's precision: the
+        # registered arrays stay the simulator's own (a float32 run is then a mixed-precision registration)
+        gio = spu.IO(dim=d)
+        pos = np.asarray(flow.position_field, np.float64)
+        gio.define_eulerian_grid(origin=np.array([pos[d - 1 - ax].min() for ax in range(d)]), dx=np.array([float(flow.dx)] * d), grid_size=np.array(flow.vorticity_field.shape[-d:]))
+        gio.add_as_eulerian_fields_for_io(vorticity=flow.vorticity_field, velocity=flow.velocity_field)
+        ios = {"flow": gio}
+        fio = spu.IO(dim=d)
+    else:
+        ios = {"flow": spu.EulerianFieldIO(position_field=flow.position_field, eulerian_fields_dict={"vorticity": flow.vorticity_field, "velocity": flow.velocity_field})}
+        fio = spu.IO(dim=d, real_dtype=real_t)
     fio.add_as_lagrangian_fields_for_io(lagrangian_grid=inter.forcing_grid.position_field, lagrangian_grid_name="body",
                                         pos_mismatch=inter.lag_grid_position_mismatch_field, vel_mismatch=inter.lag_grid_velocity_mismatch_field)
     ios["forcing"] = fio
@@ -226,6 +238,10 @@ def _run(sh, rec):
                 save_all(o, k)
                 rec.count("checkpoints_written_over_leftover_files")
             o["flow"].time = t_keep
+        if sc.get("default_io"):
+            rec.count("scenarios_checkpointed_through_default_precision_io")
+            if dtype == "float32":
+                rec.count("scenarios_float32_fields_in_float64_io")
         traj = [snap(o)]
         for k in range(N):
             save_all(o, k)
